@@ -73,6 +73,25 @@ func crashWorkload(rnd *rand.Rand, n int) []step {
 	var out []step
 	for len(out) < n {
 		st := g.next()
+		// durability is most at risk in operations that issue several statements: draw them often
+		if rnd.Intn(5) < 2 {
+			switch rnd.Intn(8) {
+			case 0, 1:
+				st = opListPopBackPushFront(g.key(), g.key())
+			case 2:
+				st = opSetMove(g.key(), g.key(), g.elem())
+			case 3:
+				st = opSetUnionStore(g.key(), g.keys1(2))
+			case 4:
+				st = opZUnionStore(g.key(), g.keys1(2), 0)
+			case 5:
+				st = opKeyRename(g.key(), g.key())
+			case 6:
+				st = opHashSet(g.key(), g.field(), g.val(), false)
+			default:
+				st = opListPush(g.key(), g.elem(), false, false)
+			}
+		}
 		name := strings.SplitN(st.text, " ", 2)[0]
 		switch name {
 		case "str.SetExpires", "key.Expire", "set.Pop", "set.Random", "key.Random", "key.DeleteAll",
@@ -213,6 +232,27 @@ func crashOnce(self, dir, script string, work []step, k int, after bool, mode st
 	}
 	fmt.Fprintf(out, "CRASH %d %d | %d %d %d %d %s k=%d after=%s %s | %s | %s\n", seq, now, len(work), acked, okRW, okRO,
 		strings.ReplaceAll(integ, " ", "_"), k, a, mode, strings.Join(ops, " ;; "), dump)
+	if mode == "close" && d != nil {
+		// the re-opened database must behave as before: delete every key through the API and check
+		// that nothing is left behind (a re-open that forgets the connection settings would leave
+		// orphan element rows)
+		if db, err := redka.Open(dbFile, nil); err == nil {
+			var names []string
+			for _, k := range d.keys {
+				names = append(names, string(k.key))
+			}
+			if len(names) > 0 {
+				db.Key().Delete(names...)
+				if d3, err := takeDump(db.RW); err == nil {
+					seq++
+					ops = append(ops, fmt.Sprintf("%d key.Delete %s", nowMs(), listTok(names)))
+					fmt.Fprintf(out, "CRASH %d %d | %d %d %d %d %s k=%d after=%s reopen-delete | %s | %s\n", seq, nowMs(), len(work)+1, len(work)+1, okRW, okRO,
+						strings.ReplaceAll(integ, " ", "_"), k, a, strings.Join(ops, " ;; "), d3.render(ident))
+				}
+			}
+			db.Close()
+		}
+	}
 	for _, suf := range []string{"", "-wal", "-shm"} {
 		os.Remove(dbFile + suf)
 	}
